@@ -18,7 +18,8 @@ META = dict(
     level_text='Theorems in coq/Properties/Properties_C05.v state, for all posting lists and all option records, that the model of account_t::amount/total, calc_posts, the limit predicates, the -B amount expression and strip_annotations satisfies: an account total is the per-commodity sum over the selected postings of its sub-tree; a parent total is its own amount plus its children\'s totals; the n-th running total is the sum of the first n row amounts and the last one is the grand total; the balance of an account equals the sum of the register rows under it (parametric in the selection predicate and the amount expression, so for every option combination); --flat/--depth/--empty only choose rows; stripping lots preserves every per-base-commodity sum. The model is tied to the code by comparing every bal row, total line and reg row (exact rationals, precision counters, row order, which rows are printed) of freshly built ledger with the extracted model on thousands of generated (journal, option set) pairs.',
     level_note='Trusted: Coq kernel; extraction + OCaml driver and the python harness for the correspondence; the journal reader and xact_t::finalize are outside the model (the model input is the posting list as finalize leaves it, predicted by the harness: lot annotation {price} [date] from a cost, cost = per-unit x quantity with summed precision) and are validated through the same comparison; account/payee patterns are literal case-insensitive substrings; unordered_map / pointer-ordered map iteration orders are unspecified (results that depend on them are compared as sets).',
     design_ref='DESIGN.md section 7 C05',
-    assumptions=['query patterns are literal [A-Za-z0-9] substrings (regex = substring)',
+    assumptions=['directives in the generated journals: bucket / A / account+default, apply account (one level), alias (defined at top level), year / Y, apply tag',
+                 'query patterns are literal [A-Za-z0-9] substrings (regex = substring)',
                  'commodity symbols avoid the predefined time commodities s/m/h',
                  'a posting carries either a lot annotation or a cost, not both (the gain/loss adjustment of finalize is C01 territory)'],
 )
@@ -61,10 +62,12 @@ def amt_text(q, dec, sym, side):
 
 
 class Post:
-    __slots__ = ('acct', 'virt', 'state', 'q', 'dec', 'comm', 'lot', 'cost')
+    __slots__ = ('acct', 'virt', 'state', 'q', 'dec', 'comm', 'lot', 'cost', 'inferred', 'rname')
 
-    def __init__(self, acct, virt, state, q, dec, comm, lot=None, cost=None):
+    def __init__(self, acct, virt, state, q, dec, comm, lot=None, cost=None, inferred=False, rname=None):
         self.acct, self.virt, self.state, self.q, self.dec, self.comm = acct, virt, state, q, dec, comm
+        self.inferred = inferred   # ITEM_INFERRED: added by finalize() for the default account, not written
+        self.rname = rname         # the account as written (alias, or inside `apply account`)
         self.lot = lot        # None | dict(price=(q, dec, comm) | None, date=str | None, tag=str | None)
         self.cost = cost      # None | (kind '@'|'@@', q >= 0, dec, comm)
 
@@ -320,6 +323,166 @@ def gen_tree_journal(rng):
     return dict(comms=[comm], accts=sorted({p.acct for x in xacts for p in x['posts']}), xacts=xacts)
 
 
+def gen_bucket_journal(rng):
+    """directives as part of the input: a default account in its three spellings (`bucket X`,
+    `A X`, `account X` + `default`), single-posting transactions that finalize() completes with an
+    inferred posting to it (mixed states, dates, payees, commodities, costs, lots, [virtual]),
+    `apply account ROOT` around all or part of the journal, `alias`, `year`/`Y` with short dates,
+    `apply tag`.  The model sees the completed transactions."""
+    comms = rng.sample(COMMS, rng.choice([1, 2, 2, 3]))
+    accts = gen_accounts(rng)
+
+    def bucket_dir(name):
+        k = rng.randrange(3)
+        return ['bucket ' + name] if k == 0 else ['A ' + name] if k == 1 else ['account ' + name, '    default', '']
+
+    def new_bucket():
+        if rng.random() < 0.4:
+            base = rng.choice(accts)
+            return tuple(base[:rng.randrange(1, len(base) + 1)]) + ((rng.choice(SEGS),) if rng.random() < 0.5 else ())
+        return tuple(rng.sample(SEGS, rng.choice([1, 2, 3])))
+
+    header = []
+    aliases = {}
+    if rng.random() < 0.4:
+        tgt = rng.choice(accts)
+        aliases['AL'] = tgt
+        header.append('alias AL=' + ':'.join(tgt))
+    short_dates = rng.random() < 0.4
+    if short_dates:
+        header.append(rng.choice(['year 2020', 'Y 2020']))
+    root = None
+    mode = rng.choice(['none', 'none', 'all', 'part'])
+    nx = rng.choice([3, 4, 6, 8, 10])
+    part_from, part_to = sorted(rng.sample(range(nx + 1), 2)) if mode == 'part' else (0, nx if mode == 'all' else 0)
+    rootname = rng.choice(['Root', 'Assets', 'R2'])
+    bucket_raw = new_bucket()
+    bucket_in_root = (mode == 'all' and rng.random() < 0.6)
+    bucket = ((rootname,) + bucket_raw) if bucket_in_root else bucket_raw
+    if not bucket_in_root:
+        header += bucket_dir(':'.join(bucket_raw))
+    if header:
+        header.append('')
+    xacts = []
+    tag_open = False
+    for xi in range(nx):
+        pre = []
+        if mode != 'none' and xi == part_from:
+            if tag_open:             # blocks nest: close the tag block before opening the account block
+                pre += ['end apply tag', '']
+                tag_open = False
+            pre.append('apply account ' + rootname)
+            if bucket_in_root:
+                pre += bucket_dir(':'.join(bucket_raw))
+            pre.append('')
+        inroot = mode != 'none' and part_from <= xi < part_to
+        if not tag_open and rng.random() < 0.15:
+            pre += ['apply tag t%d' % xi, '']
+            tag_open = True
+        if xi > 0 and rng.random() < 0.12:
+            # the default account changes
+            bucket_raw = new_bucket()
+            bucket = ((rootname,) + bucket_raw) if inroot else bucket_raw
+            pre += bucket_dir(':'.join(bucket_raw)) + ['']
+
+        def mk(acct, *a, **kw):
+            """a written posting: its model account (alias / apply account resolved) and its spelling"""
+            if aliases and acct == aliases['AL'] and rng.random() < 0.6:
+                return Post(acct, *a, rname='AL', **kw)
+            if inroot:
+                return Post((rootname,) + tuple(acct), *a, rname=':'.join(acct), **kw)
+            return Post(acct, *a, **kw)
+
+        date = '2020/%02d/%02d' % (rng.randrange(1, 13), rng.randrange(1, 29))
+        xstate = rng.choice(['u', 'u', 'c', 'p'])
+        pst = rng.choice(['u', 'u', 'c', 'p'])
+        comm = rng.choice(comms)
+        q = gen_quantity(rng, comm[2])
+        if q == 0:
+            q = F(1)
+        acct = rng.choice(accts)
+        r = rng.random()
+        posts = []
+        if r < 0.7:
+            # a single posting; finalize() adds the inferred one
+            k = rng.random()
+            others = [c for c in comms if c != comm]
+            if k < 0.2 and others:
+                cc = rng.choice(others)
+                cdec = cc[2] + rng.choice([0, 1])
+                unit = F(rng.randrange(1, 5000), 10 ** cdec)
+                if rng.random() < 0.5:
+                    cost = ('@', unit, cdec, cc)
+                else:
+                    tot = unit * abs(q)
+                    cost = ('@@', tot, need_dec(tot, cc[2]), cc)
+                p = mk(acct, 0, pst, q, comm[2], comm, cost=cost)
+                tq, tprec = total_cost(p)
+                inf = Post(bucket, 0, pst, -tq, tprec, cc, inferred=True)
+            elif k < 0.3:
+                pc = rng.choice([c for c in COMMS if c != comm])
+                lot = dict(price=(F(rng.randrange(1, 900), 10 ** pc[2]), pc[2], pc), date=None, tag=None)
+                p = mk(acct, 0, pst, q, comm[2], comm, lot=lot)
+                inf = Post(bucket, 0, pst, -q, comm[2], comm, lot=lot, inferred=True)
+            elif k < 0.4:
+                p = mk(acct, 2, pst, q, comm[2], comm)
+                inf = Post(bucket, 0, pst, -q, comm[2], comm, inferred=True)
+            elif k < 0.45:
+                p = mk(acct, 1, pst, q, comm[2], comm)
+                inf = None          # (A) does not have to balance: nothing is inferred
+            else:
+                dec = comm[2] + rng.choice([0, 0, 0, 1])
+                q = gen_quantity(rng, dec) or F(1)
+                p = mk(acct, 0, pst, q, dec, comm)
+                inf = Post(bucket, 0, pst, -q, dec, comm, inferred=True)
+            posts = [p] + ([inf] if inf is not None else [])
+            if inf is not None and pst == 'u':
+                # _state of the written posting after parse_post: the transaction's when it has none
+                inf.state = 'u'
+        else:
+            posts = [mk(acct, 0, pst, q, comm[2], comm),
+                     mk(rng.choice(accts), 0, rng.choice(['u', 'c', 'p']), -q, comm[2], comm)]
+            if rng.random() < 0.3:
+                posts.insert(1, mk(rng.choice(accts), 1, 'u', F(rng.randrange(1, 99)), comm[2], comm))
+        x = dict(date=date, state=xstate, payee='%s %d' % (rng.choice(PAYEES), xi), posts=posts, pre=pre)
+        if short_dates and rng.random() < 0.7:
+            x['date_text'] = date[5:]
+        post_lines = []
+        if tag_open and rng.random() < 0.4:
+            post_lines += ['end apply tag', '']
+            tag_open = False
+        if mode != 'none' and xi == part_to - 1:
+            if tag_open:
+                post_lines += ['end apply tag', '']
+                tag_open = False
+            post_lines += ['end apply account', '']
+            if bucket_in_root:
+                pass
+            elif True:
+                pass
+        x['post_lines'] = post_lines
+        xacts.append(x)
+    footer = ['end apply tag'] if tag_open else []
+    return dict(comms=comms, accts=sorted({p.acct for x in xacts for p in x['posts']}), xacts=xacts,
+                header=header, footer=footer)
+
+
+def gen_bucket_opts(rng, j):
+    o = gen_opts(rng) if rng.random() < 0.4 else Opt()
+    r = rng.random()
+    if r < 0.4:
+        o.state = rng.choice(['cleared', 'uncleared', 'pending'])
+    elif r < 0.55:
+        o.query = [('payee', rng.choice(PQUERIES + ['Rent', 'Opening', 'acme']))]
+    elif r < 0.7:
+        o.begin = '2020/%02d/%02d' % (rng.randrange(1, 13), rng.randrange(1, 29))
+    elif r < 0.85:
+        o.end = '2020/%02d/%02d' % (rng.randrange(2, 13), rng.randrange(1, 29))
+    elif r < 0.92:
+        o.real = True
+    return o
+
+
 def gen_tree_opts(rng, j):
     o = Opt()
     r = rng.random()
@@ -347,11 +510,14 @@ STATE_TXT = {'u': '', 'c': '* ', 'p': '! '}
 
 
 def render(j):
-    out = []
+    out = list(j.get('header', []))
     for x in j['xacts']:
-        out.append('%s %s%s' % (x['date'], STATE_TXT[x['state']], x['payee']))
+        out += x.get('pre', [])
+        out.append('%s %s%s' % (x.get('date_text', x['date']), STATE_TXT[x['state']], x['payee']))
         for p in x['posts']:
-            name = ':'.join(p.acct)
+            if p.inferred:
+                continue
+            name = p.rname or ':'.join(p.acct)
             if p.virt == 1:
                 name = '(' + name + ')'
             elif p.virt == 2:
@@ -370,6 +536,8 @@ def render(j):
                 t += ' %s %s' % (kind, amt_text(cq, cdec, cc[0], cc[1]))
             out.append('    %s%s    %s' % (STATE_TXT[p.state], name, t))
         out.append('')
+        out += x.get('post_lines', [])
+    out += j.get('footer', [])
     return '\n'.join(out)
 
 
@@ -379,7 +547,8 @@ def pool_of(j):
     pool = {}
     for x in j['xacts']:
         for p in x['posts']:
-            pool[p.comm[0]] = max(pool.get(p.comm[0], 0), p.dec)
+            if not p.inferred:      # an inferred amount is computed, not parsed: it teaches nothing
+                pool[p.comm[0]] = max(pool.get(p.comm[0], 0), p.dec)
     return pool
 
 
@@ -398,14 +567,20 @@ def posts_sx(j):
                 cost = [tq.numerator, tq.denominator, tprec, 1, hx(p.cost[3][0])]
             else:
                 cost = 'none'
-            out.append([xi, hx(x['payee']), x['state'], p.state, [hx(s) for s in p.acct], 1 if p.virt else 0, amt, cost])
+            out.append([xi, hx(x['payee']), x['state'], p.state, [hx(s) for s in p.acct], 1 if p.virt else 0, amt, cost,
+                        int(x['date'].replace('/', '')), 1 if p.inferred else 0])
     return out
 
 
 class Opt:
-    def __init__(self, real=False, state='any', query=None, basis=False, lots='', flat=False, depth=None, empty=False):
+    def __init__(self, real=False, state='any', query=None, basis=False, lots='', flat=False, depth=None, empty=False,
+                 begin=None, end=None):
         self.real, self.state, self.query, self.basis = real, state, query, basis
         self.lots, self.flat, self.depth, self.empty = lots, flat, depth, empty
+        self.begin, self.end = begin, end      # -b / -e DATE ('YYYY/MM/DD')
+
+    def with_rows(self, flat, depth, empty):
+        return Opt(self.real, self.state, self.query, self.basis, self.lots, flat, depth, empty, self.begin, self.end)
 
     def keep(self):
         return dict(lots=(1, 1, 1), prices=(1, 0, 0), dates=(0, 1, 0), notes=(0, 0, 1)).get(self.lots, (0, 0, 0))
@@ -420,6 +595,10 @@ class Opt:
             a.append('-B')
         if self.lots:
             a.append({'lots': '--lots', 'prices': '--lot-prices', 'dates': '--lot-dates', 'notes': '--lot-notes'}[self.lots])
+        if self.begin:
+            a += ['-b', self.begin]
+        if self.end:
+            a += ['-e', self.end]
         return a
 
     def query_args(self):
@@ -439,7 +618,9 @@ class Opt:
         kp, kd, kt = self.keep()
         q = 'none' if not self.query else [[t[0], hx(t[1])] for t in self.query]
         return ['opts', self.real, self.state, q, self.basis, kp, kd, kt, self.flat,
-                'none' if self.depth is None else self.depth, self.empty]
+                'none' if self.depth is None else self.depth, self.empty,
+                int(self.begin.replace('/', '')) if self.begin else 'none',
+                int(self.end.replace('/', '')) if self.end else 'none']
 
     def key(self):
         return ' '.join(self.bal_args() + self.query_args()) or '(none)'
@@ -467,6 +648,10 @@ def gen_opts(rng):
         o.depth = rng.choice([1, 1, 2, 2, 3, 4, 6])
     if rng.random() < 0.3:
         o.empty = True
+    if rng.random() < 0.12:
+        o.begin = '2020/%02d/%02d' % (rng.randrange(1, 13), rng.randrange(1, 29))
+    if rng.random() < 0.12:
+        o.end = '2020/%02d/%02d' % (rng.randrange(2, 13), rng.randrange(1, 29))
     return o
 
 
@@ -833,7 +1018,7 @@ def one_journal(ctx, res, j, opts, tag):
     for oi, o in enumerate(opts):
         want = ['want', 'reg', 'bal', 'own', 'lay'] + (['col'] if o.depth is not None else [])
         lines.append(lib.sx(['case', 'c%d' % oi, poolsx, want, o.sx(), ['posts'] + psx]))
-        oe = Opt(o.real, o.state, o.query, o.basis, o.lots, False, None, True)
+        oe = o.with_rows(False, None, True)
         lines.append(lib.sx(['case', 'e%d' % oi, poolsx, ['want', 'bal', 'own'], oe.sx(), ['posts'] + psx]))
     mout = {}
     for l in lib.run_model('C05', lines):
@@ -902,7 +1087,7 @@ def one_journal(ctx, res, j, opts, tag):
         # rows printed without --empty
         ishown = ['%s|%s' % (r[0], canon_value(r[1])) for r in reg_ne]
         mshown = ['|'.join(x[4:].split('|')[:2]) for x in mreg_all if x.endswith('|1')] if not o.empty else None
-        mo = Opt(o.real, o.state, o.query, o.basis, o.lots, False, None, False)
+        mo = o.with_rows(False, None, False)
         if not o.empty and ishown != mshown:
             res.disagreements.append(dict(name='C05/reg-rows-shown', case=case, impl=ishown[:6], model=mshown[:6]))
         ibal = ['bal %s|%s|%s' % (r[0], canon_value(r[1]), canon_value(r[2])) for r in bal if r[0] != '']
@@ -952,7 +1137,7 @@ def one_journal(ctx, res, j, opts, tag):
         res.count('postings-selected:%s' % ('0' if nsel == 0 else '1-3' if nsel <= 3 else '4-10' if nsel <= 10 else '11+'))
         res.count('bal-rows:%s' % ('0' if not ibal else '1' if len(ibal) == 1 else '2-5' if len(ibal) <= 5 else '6+'))
         for name, on in (('real', o.real), ('state', o.state != 'any'), ('query', bool(o.query)), ('basis', o.basis),
-                         ('lots', bool(o.lots)), ('flat', o.flat), ('depth', o.depth is not None), ('empty', o.empty)):
+                         ('lots', bool(o.lots)), ('flat', o.flat), ('depth', o.depth is not None), ('empty', o.empty), ('begin', bool(o.begin)), ('end', bool(o.end))):
             if on:
                 res.count('opt:' + name)
         if not o.flat:
@@ -987,13 +1172,19 @@ def run(ctx, n_override=None):
         kind = rng.random()
         directed = kind < 0.15
         treej = 0.15 <= kind < 0.35
-        j = gen_directed(rng) if directed else gen_tree_journal(rng) if treej else gen_journal(rng)
-        res.count('journal:directed' if directed else 'journal:display-tree' if treej else 'journal:random')
+        bucketj = 0.35 <= kind < 0.55
+        j = (gen_directed(rng) if directed else gen_tree_journal(rng) if treej else
+             gen_bucket_journal(rng) if bucketj else gen_journal(rng))
+        res.count('journal:directed' if directed else 'journal:display-tree' if treej else
+                  'journal:directives+bucket' if bucketj else 'journal:random')
         res.count('tree-depth:%d' % max(len(a) for a in j['accts']))
         res.count('commodities:%d' % len(j['comms']))
         opts = [gen_opts(rng) for _ in range(per)]
         if treej:
             opts = [gen_tree_opts(rng, j) for _ in range(per)]
+        if bucketj:
+            opts = [gen_bucket_opts(rng, j) for _ in range(per)]
+            res.count('inferred-postings', sum(1 for x in j['xacts'] for p in x['posts'] if p.inferred))
         if rng.random() < 0.3:
             opts[0] = Opt()
         one_journal(ctx, res, j, opts, ji)
@@ -1035,6 +1226,12 @@ def opt_of_key(args):
         elif w == '--depth':
             i += 1
             o.depth = int(words[i])
+        elif w in ('-b', '-e'):
+            i += 1
+            if w == '-b':
+                o.begin = words[i]
+            else:
+                o.end = words[i]
         else:
             q.append(('payee', w[1:]) if w.startswith('@') else ('acct', w))
         i += 1
